@@ -418,6 +418,107 @@ def field_mutations(prog, owner):
     return out
 
 
+_NUM_UPDATE = re.compile(r"(core|std)::num::(.*::)?(saturating_add|wrapping_add|saturating_sub|wrapping_sub|saturating_mul|wrapping_mul|max|min)$|::(add_assign|add|max|min)$")
+
+
+def logic_reads_of_field(body, owner, field):
+    """reads of `owner.field` in `body` whose value can reach anything other than a write back into the same field
+    (statement-level def-use: read -> pure arithmetic / overflow assertion -> store to the same field is a counter update)"""
+    def is_field_place(pl):
+        fs = [p for p in pl["p"] if p[0] == "f"]
+        return bool(fs) and pl["p"][-1][0] == "f" and pl["p"][-1][1] == field and pl["p"][-1][2] == owner
+
+    def reads_field(pl):
+        return any(p[0] == "f" and p[1] == field and p[2] == owner for p in pl["p"])
+
+    def op_places(o):
+        if "c" in o:
+            return [o["c"]]
+        if "m" in o:
+            return [o["m"]]
+        return []
+
+    def rv_places(rv):
+        k = rv["k"]
+        out = []
+        if k in ("use", "un", "cast", "repeat"):
+            out += op_places(rv["a"])
+        elif k in ("ref", "rawptr", "discr", "len"):
+            if "pl" in rv:
+                out.append(rv["pl"])
+        elif k == "bin":
+            out += op_places(rv["a"]) + op_places(rv["b"])
+        elif k == "agg":
+            for o in rv["ops"]:
+                out += op_places(o)
+        return out
+
+    # every "use site": (kind, places read, destination place or None, rvalue kind, span, extra)
+    sites = []
+    for bl in body.blocks:
+        if bl["id"] not in body.reach():
+            continue
+        for st in bl["stmts"]:
+            if st["k"] != "assign":
+                continue
+            pls = rv_places(st["rv"])
+            # prefix projections of the destination are reads as well
+            sites.append(("assign", pls, st["dst"], st["rv"], st.get("sp", ""), None))
+        t = bl["term"]
+        if t["k"] == "call":
+            pls = []
+            for a in t["args"]:
+                pls += op_places(a)
+            cs = mir.CallSite(body, bl["id"], t)
+            sites.append(("call", pls, t["dst"], None, t.get("sp", ""), cs))
+        elif t["k"] == "switch":
+            sites.append(("switch", op_places(t["d"]), None, None, t.get("sp", ""), None))
+        elif t["k"] == "assert":
+            sites.append(("assert", op_places(t["cond"]), None, None, t.get("sp", ""), None))
+    bad = []
+    tainted = set()
+    work = []
+
+    def flow(site):
+        """where does the value computed at `site` go?  returns False when it escapes into logic"""
+        kind, pls, dst, rv, sp, cs = site
+        if kind == "assert":
+            return True
+        if kind == "switch":
+            return False
+        if kind == "call":
+            names = (cs.callee or "", cs.resolved or "")
+            if any("core::fmt::rt::Argument" in n for n in names):
+                return True          # formatted into a log line: not an input of any decision
+            if not any(_NUM_UPDATE.search(n) for n in names):
+                return False
+        elif rv["k"] not in ("use", "bin", "cast", "un", "ref"):
+            return False
+        elif rv["k"] == "bin" and rv.get("op") in ("Eq", "Ne", "Lt", "Le", "Gt", "Ge", "Cmp"):
+            return False
+        if is_field_place(dst):
+            return True
+        if dst["p"]:
+            return False
+        if dst["l"] not in tainted:
+            tainted.add(dst["l"])
+            work.append(dst["l"])
+        return True
+
+    for site in sites:
+        if any(reads_field(pl) and not (site[0] == "call" and False) for pl in site[1]):
+            if not flow(site):
+                bad.append(site[4])
+    while work:
+        l = work.pop()
+        for site in sites:
+            if any(pl["l"] == l for pl in site[1]):
+                if not flow(site):
+                    bad.append(site[4])
+    return bad
+
+
+
 def ob_state_mutations(run, oid, owners, why):
     """the reviewed mutation map (rules/state_mutations.json): which operations mutate each field of the protocol state
     ADTs, and at how many sites. A new kind of mutation (remove/clear/retain/assign ...) or an additional site is a
@@ -425,7 +526,13 @@ def ob_state_mutations(run, oid, owners, why):
     import json
     import os
     prog = run.program("lib")
-    tab = json.load(open(os.path.join(os.path.dirname(os.path.abspath(__file__)), "state_mutations.json")))["mutations"]
+    _sm = json.load(open(os.path.join(os.path.dirname(os.path.abspath(__file__)), "state_mutations.json")))
+    tab = _sm["mutations"]
+    reviewed_fields = _sm.get("fields", {})
+    try:
+        known_fns = set(json.load(open(os.path.join(os.path.dirname(os.path.abspath(__file__)), "known_fns.json")))["fns"])
+    except Exception:
+        known_fns = None
     o = run.ob(oid, "protocol state is mutated only by the reviewed operations (kind of operation and number of sites per field)", why, floor=len(owners))
     for ow in owners:
         full = "alpenglow::" + ow
@@ -438,6 +545,25 @@ def ob_state_mutations(run, oid, owners, why):
         for f in fields:
             g = got.get(f, {})
             w = want.get(f, {})
+            if ow in reviewed_fields and f not in reviewed_fields[ow] and known_fns is not None:
+                # a field that did not exist on the reviewed tree: harmless if nothing that existed then reads it (a statistics counter
+                # only ever updated and exposed through new accessors); otherwise it takes part in reviewed logic and needs review
+                readers = []
+                for d2, b2 in prog.bodies.items():
+                    if b2.generated:
+                        continue
+                    root2 = d2.split("::{closure")[0]
+                    if root2 not in known_fns:
+                        continue
+                    for sp2 in logic_reads_of_field(b2, full, f):
+                        readers.append((K.fshort(d2), sp2))
+                if readers:
+                    o.fail("%s.%s|new-field-read-by-reviewed-code" % (K.fshort(full), f), "new field %s.%s is read by code that existed on the reviewed tree (%s): it takes part in protocol logic and needs review" % (
+                        ow.rsplit("::", 1)[-1], f, readers[0][0]), readers[0][1])
+                else:
+                    o.ok("%s.%s|new-write-only-field" % (K.fshort(full), f), "%s.%s is new and only updated / read by new accessors (statistics): cannot influence reviewed logic" % (ow.rsplit("::", 1)[-1], f),
+                         prog.adts[full]["span"], nontrivial=False)
+                continue
             bad = []
             for op, sites in sorted(g.items()):
                 if len(sites) > w.get(op, 0):
